@@ -202,7 +202,7 @@ def setup(tier):
     bases = []
     for c in names:
         pr = prefs[c]
-        for typ, s in base_sids(ref, pr, 3 if tier == "thorough" else 2):
+        for typ, s in base_sids(ref, pr, 3 if tier == "thorough" else (1 if tier == "c20" else 2)):
             d = ref.forced(s, typ)
             toks = tokens(pr, typ, d)
             owners[(c, join(toks))] = typ + ":" + s
